@@ -112,6 +112,15 @@ func NewFloatFromString(typ *types.FloatType, s string) (*Float, error) {
 			if err != nil {
 				return nil, errors.WithStack(err)
 			}
+			if exp := se & 0x7FFF; exp != 0 && exp != 0x7FFF && m>>63 == 0 {
+				// An encoding with a non-zero exponent and a clear integer bit (an
+				// unnormal) is not a number; LLVM reads it as a NaN.
+				x := &big.Float{}
+				if se&0x8000 != 0 {
+					x.Neg(x)
+				}
+				return &Float{Typ: typ, X: x, NaN: true}, nil
+			}
 			f := float80x86.NewFromBits(uint16(se), m)
 			x, nan := f.Big()
 			return &Float{Typ: typ, X: x, NaN: nan}, nil
